@@ -44,3 +44,16 @@ def seq_container(ctx, driver, trace_module, model_checks, depth, shards=8, extr
 def c05(ctx):
     return seq_container(ctx, "queue", "QueueTrace", [("QueueMC", "QueueMC.cfg")],
                          depth=dict(quick=6, thorough=8))
+
+
+@handler("C06")
+def c06(ctx):
+    return seq_container(ctx, "stack", "StackTrace", [("StackMC", "StackMC.cfg")],
+                         depth=dict(quick=7, thorough=9),
+                         kf_controls=[("StackMC", "StackMC_kf.cfg", "LIFO")])
+
+
+@handler("C03")
+def c03(ctx):
+    return seq_container(ctx, "heap", "HeapTrace", [("HeapMC", "HeapMC.cfg")],
+                         depth=dict(quick=3, thorough=4), shards=12)
